@@ -112,6 +112,11 @@ def run(tier, seed):
     for c in carriers.conforming("quick", cap=30 if tier == "quick" else 200):
         lines = c["lines"]
         for i, l in enumerate(lines):
+            if l.kind == "simple" and i > 0 and lines[i - 1].kind in ("ctrl", "cont") and l.depth >= 2:
+                ind = "\t" * l.depth
+                for label, sep in (("comment", ind + "// c"), ("empty", "")):
+                    new = lines[:i] + [norm.Line([norm.P("raw", sep)], "raw")] + lines[i:]
+                    vtasks.append((c["fname"], norm.render(c["pre"] + new), f"separator:{label}:before-braceless-body"))
             if l.kind == "lbrace" and i > 0:
                 ind = "\t" * l.depth
                 for label, sep in (("comment", ind + "// c"), ("blockcomment", ind + "/* c */"), ("empty", ""), ("define", "#define SEP 1")):
